@@ -200,6 +200,12 @@ const NAME_FLOW_MAP: &str = "__yaml_flow_map";
 const NAME_TUPLE_COMMENTED: &str = "__yaml_commented";
 const NAME_SPACE_AFTER: &str = "__yaml_space_after";
 
+/// YAML limits an implicit key (`key: value`) to 1024 characters: the `:` must follow within
+/// 1024 characters of the start of the key, on the same line (a parser stops looking for it
+/// beyond that). A block mapping key whose text (quotes and escapes included) is longer is
+/// written as an explicit key (`? key` / `: value`), which has no such limit.
+const MAX_IMPLICIT_KEY_CHARS: usize = 1024;
+
 // Top-level newtype wrappers for strong/weak simply wrap the real payloads.
 impl<T: Serialize> Serialize for RcAnchor<T> {
     fn serialize<S: Serializer>(&self, s: S) -> std::result::Result<S::Ok, S::Error> {
@@ -752,6 +758,16 @@ impl<'a, W: Write> YamlSerializer<'a, W> {
         }
     }
 
+    /// The text [`Self::write_plain_or_quoted`] writes for `s`.
+    fn plain_or_quoted_text(&self, s: &str) -> Result<String> {
+        let mut text = String::new();
+        let mut scratch = YamlSerializer::new(&mut text);
+        scratch.quote_all = self.quote_all;
+        scratch.yaml_12 = self.yaml_12;
+        scratch.write_plain_or_quoted(s)?;
+        Ok(text)
+    }
+
     /// Write a double-quoted string with necessary escapes.
     fn write_quoted(&mut self, s: &str) -> Result<()> {
         self.out.write_char('"')?;
@@ -877,6 +893,7 @@ impl<'a, W: Write> YamlSerializer<'a, W> {
                 prev_map_depth: None,
                 restore_shift: None,
                 flow: true,
+                restore_layout: None,
             });
         }
         // If we are the value of a mapping key, YAML forbids "key: Variant: value" inline.
@@ -885,6 +902,10 @@ impl<'a, W: Write> YamlSerializer<'a, W> {
         // space insertion to the value serializer via pending_space_after_colon.
         let was_map_value = self.pending_space_after_colon;
         let anchored_key_depth = self.write_anchor_before_variant_key()?;
+        let key = self.plain_or_quoted_text(variant)?;
+        if key.chars().count() > MAX_IMPLICIT_KEY_CHARS {
+            return self.begin_variant_explicit(&key, was_map_value, anchored_key_depth);
+        }
         if was_map_value {
             // consume the pending space request and start a new line
             self.pending_space_after_colon = false;
@@ -895,7 +916,7 @@ impl<'a, W: Write> YamlSerializer<'a, W> {
             // not the serializer's current depth (which may still be the outer level).
             let base = self.current_map_depth.unwrap_or(self.depth);
             self.write_indent(base + 1)?;
-            self.write_plain_or_quoted(variant)?;
+            self.out.write_str(&key)?;
             // Write ':' without trailing space, then mark that a space may be needed
             // if the following value is a scalar.
             self.out.write_str(":")?;
@@ -911,6 +932,7 @@ impl<'a, W: Write> YamlSerializer<'a, W> {
                 prev_map_depth: Some(prev_map_depth),
                 restore_shift: None,
                 flow: false,
+                restore_layout: None,
             });
         }
         // Otherwise (top-level or sequence context).
@@ -918,7 +940,7 @@ impl<'a, W: Write> YamlSerializer<'a, W> {
         if self.at_line_start {
             self.write_indent(anchored_key_depth.unwrap_or(self.depth))?;
         }
-        self.write_plain_or_quoted(variant)?;
+        self.out.write_str(&key)?;
         // Write ':' without a space and defer spacing/newline to the value serializer.
         self.out.write_str(":")?;
         self.pending_space_after_colon = true;
@@ -940,13 +962,64 @@ impl<'a, W: Write> YamlSerializer<'a, W> {
             prev_map_depth,
             restore_shift,
             flow: false,
+            restore_layout: None,
         })
+    }
+
+    /// [`Self::begin_variant`] in block style for a variant whose name (`key`, as it is written)
+    /// is too long for an implicit key: `? Variant` and, on the next line under it, `: ` followed
+    /// by the payload, which is laid out like the value of a composite key (see
+    /// `MapSer::serialize_value`).
+    fn begin_variant_explicit(
+        &mut self,
+        key: &str,
+        was_map_value: bool,
+        anchored_key_depth: Option<usize>,
+    ) -> Result<VariantFrame> {
+        let mut restore_shift = None;
+        // The depth whose indentation is the column of the `?`.
+        let key_depth = if was_map_value {
+            // `key:` — the variant mapping goes to the next line, one level under the parent.
+            self.pending_space_after_colon = false;
+            if !self.at_line_start {
+                self.newline()?;
+            }
+            self.current_map_depth.unwrap_or(self.depth) + 1
+        } else if self.at_line_start {
+            anchored_key_depth.unwrap_or(self.depth)
+        } else if let Some(d) = self.after_dash_depth {
+            // `- ? Variant` — the `: ` line is aligned under the `?`, two columns after the dash.
+            restore_shift = Some(self.shift_for_inline_node());
+            d + 1
+        } else {
+            self.depth
+        };
+        self.write_indent(key_depth)?;
+        self.out.write_str("? ")?;
+        self.out.write_str(key)?;
+        self.newline()?;
+        self.write_indent(key_depth)?;
+        self.out.write_str(": ")?;
+        let frame = VariantFrame {
+            prev_map_depth: Some(self.current_map_depth.replace(key_depth)),
+            restore_shift,
+            flow: false,
+            restore_layout: Some((self.depth, self.pending_inline_map)),
+        };
+        self.pending_inline_map = true;
+        self.after_dash_depth = Some(key_depth);
+        self.depth = key_depth;
+        Ok(frame)
     }
 
     /// Close the variant: undo what [`Self::begin_variant`] changed for the payload.
     fn end_variant(&mut self, frame: VariantFrame) -> Result<()> {
         if let Some(prev_map_depth) = frame.prev_map_depth {
             self.current_map_depth = prev_map_depth;
+        }
+        if let Some((depth, pending_inline_map)) = frame.restore_layout {
+            self.depth = depth;
+            self.pending_inline_map = pending_inline_map;
         }
         if let Some(shift) = frame.restore_shift {
             self.indent_shift = shift;
@@ -1807,6 +1880,9 @@ struct VariantFrame {
     restore_shift: Option<isize>,
     /// Inside a flow collection: the variant opened a `{` that has to be closed.
     flow: bool,
+    /// `Some((previous depth, previous pending_inline_map))` if the variant was written with an
+    /// explicit key (`? Variant` / `: payload`), which lays the payload out after the `: `.
+    restore_layout: Option<(usize, bool)>,
 }
 
 // ------------------------------------------------------------
@@ -2294,12 +2370,23 @@ impl<'a, 'b, W: Write> SerializeMap for MapSer<'a, 'b, W> {
                     // Indent continuation lines. If this map started inline after a dash,
                     // `indent_shift` aligns them under the first key.
                     self.ser.write_indent(self.depth)?;
-                    self.ser.out.write_str(&text)?;
-                    // Defer the decision to put a space vs. newline until we see the value type.
-                    self.ser.out.write_str(":")?;
-                    self.ser.pending_space_after_colon = true;
-                    self.ser.at_line_start = false;
-                    self.last_key_complex = false;
+                    if text.chars().count() > MAX_IMPLICIT_KEY_CHARS {
+                        // Too long for an implicit key (`key: value`): written as an explicit
+                        // key `? key`, its value after `: ` on the next line like the value of
+                        // a composite key.
+                        self.ser.out.write_str("? ")?;
+                        self.ser.out.write_str(&text)?;
+                        self.ser.newline()?;
+                        self.ser.last_value_was_block = false;
+                        self.last_key_complex = true;
+                    } else {
+                        self.ser.out.write_str(&text)?;
+                        // Defer the decision to put a space vs. newline until we see the value type.
+                        self.ser.out.write_str(":")?;
+                        self.ser.pending_space_after_colon = true;
+                        self.ser.at_line_start = false;
+                        self.last_key_complex = false;
+                    }
                 }
                 Err(Error::Unexpected { msg }) if msg == "non-scalar key" => {
                     self.ser.write_anchor_for_complex_node()?;
